@@ -4,9 +4,9 @@
    dictionaries, character classes and regular-expression texts come from Gen.TokenTables / Gen.Elements, regenerated
    from the source on every run. *)
 From Coq Require Import ZArith List String Ascii Bool.
-From Model Require Import PyBase Graph Valence Tokenize Parser Reader SmilesAst SmilesGraph Recheck.
+From Model Require Import PyBase Graph Valence Tokenize Parser Reader SmilesAst SmilesGraph SmilesText Recheck.
 From Gen Require Import TokenTables.
-From Proofs Require Import TokenizeProofs ParserProofs ReaderProofs ReaderExt ReaderExt2 DenoteProofs GraphProofs RecheckProofs.
+From Proofs Require Import TokenizeProofs ParserProofs ReaderProofs ReaderExt ReaderExt2 DenoteProofs GraphProofs TextProofs RecheckProofs.
 Import ListNotations.
 Open Scope Z_scope.
 
@@ -347,3 +347,31 @@ Theorem C03_squeeze_gap_free : forall ignore rs ps gs mR' mP' mG',
   (forall v, In v F -> 1 <= v) /\ forall v k, In v F -> 1 <= k <= v -> In k F.
 Proof. exact squeeze_gap_free. Qed.
 Print Assumptions C03_squeeze_gap_free.
+
+(* ---- the character level: smiles_tokenize on the text of a tree (Model.SmilesText: organic / aromatic symbols, bracket atoms
+   written from their fields, bond symbols, direction marks, dots, ring numbers 1..99 with %nn) returns the token spelling of the
+   tree, for every well-formed tree whose tokens are writable (an atom is writable if it is an organic / aromatic symbol or its
+   bracket text is read back by _atom_parse - a decidable check per atom) *)
+Theorem C03_tokenize_spell_text : forall t, wf_tree t = true -> tree_writable t -> tokenize (spell_text t) = Ok (spell t).
+Proof. exact tokenize_spell_text. Qed.
+Print Assumptions C03_tokenize_spell_text.
+
+(* END TO END for molecules: smiles() on the text of a writable syntax tree builds (numbering by atom maps, atoms, bonds with
+   loop / duplicate rejection) the molecule of the tree's machine-free graph, and fails when the tree has none *)
+Theorem C03_read_spell_text : forall ignore remap t, wf2 t = true -> tree_writable t ->
+  match denote_graph (negb ignore) t with
+  | Some g => read ignore remap (spell_text t) = build ignore remap g
+  | None => exists e, read ignore remap (spell_text t) = Err e
+  end.
+Proof. exact read_spell_text. Qed.
+Print Assumptions C03_read_spell_text.
+
+Theorem C03_read_spell_text_example :
+  let t := Node 0 (simple_atom "C") [(None, 1)]
+             [(Some (1, PInt 2), Node 0 (simple_atom "O") [] []);
+              (None, Node 8 (mkAt "N" None None 0 (Some 1) None) [(Some (9, PBool true), 12)]
+                       [(Some (4, PNone), Node 0 (mkAt "C" (Some 13) (Some 7) (-1) (Some 3) (Some false)) [(None, 1); (None, 12)] [])])] in
+  spell_text t = "C1(=O)[nH]/%12.[13C@@H3-1:7]1%12"%string /\ wf2 t = true /\ tree_writable t /\
+  exists m, read true false (spell_text t) = Ok (RMol m).
+Proof. exact read_spell_text_example. Qed.
+Print Assumptions C03_read_spell_text_example.
